@@ -87,6 +87,28 @@ def run(ctx):
     if get_merkle_root([a, b, c]) != sha256d(sha256d(a + b) + c):
         res.violations.append({"kind": "odd entry is not promoted unchanged", "list": [a.hex(), b.hex(), c.hex()]})
     res.sample({"op": "mroot of 3 entries", "impl": get_merkle_root([a, b, c]).hex()})
+    # the commitment as the node computes it for a block header (consensus.calc_merkle_root_hash on transactions):
+    # the original list first (as when a block has been assembled or validated), then every edit of it
+    from skepticoin.consensus import calc_merkle_root_hash
+    for n in range(1, ctx.scale(6, 8) + 1):
+        txs = [gens.tx(rng) for _ in range(n)]
+        ids = [t.hash() for t in txs]
+        root = calc_merkle_root_hash(list(txs))
+        ops.append("mroot " + " ".join(x.hex() for x in ids))
+        impl.append(root.hex())
+        fresh_tx = gens.tx(rng)
+        by_id = {t.hash(): t for t in txs + [fresh_tx]}
+        for kind, m in edits(ids, fresh_tx.hash()):
+            if not m:
+                continue
+            r2 = calc_merkle_root_hash([by_id[i] for i in m])
+            ops.append("mroot " + " ".join(x.hex() for x in m))
+            impl.append(r2.hex())
+            res.case(("header-edit", tuple(m)))
+            res.count("header_commitment_edit:" + kind)
+            if m != ids and r2 == root:
+                res.violations.append({"kind": "the header commitment is unchanged by '%s' of the transaction list" % kind,
+                                       "ids": [x.hex() for x in ids], "edited": [x.hex() for x in m]})
     model = ctx.driver.ask(ops)
     kit.compare(res, ops, impl, model)
     res.exhaustive = True
